@@ -38,6 +38,29 @@ func btpCases() []btpCase {
 	type R = ckks.ParametersLiteral
 	return []btpCase{
 		{"ordinary", func(r *R, b *B) {}, false},
+		// every optional part of the parameter object set at once (codec: the object must survive its own encoding)
+		{"all-options-iterations-reserved", func(r *R, b *B) {
+			b.IterationsParameters = it([]float64{20, 20}, 28)
+			b.EphemeralSecretWeight = P(0)
+			b.CoeffsToSlotsFactorizationDepthAndLogScales = [][]int{{56}, {56}}
+			b.SlotsToCoeffsFactorizationDepthAndLogScales = [][]int{{39}}
+			b.Mod1Type, b.K, b.Mod1Degree, b.DoubleAngle, b.Mod1InvDegree, b.EvalModLogScale = mod1.CosContinuous, P(12), P(40), P(2), P(5), P(59)
+			r.LogDefaultScale = 80
+		}, false},
+		{"all-options-iterations-no-reserved", func(r *R, b *B) {
+			b.IterationsParameters = it([]float64{15}, 0)
+			b.EphemeralSecretWeight = P(8)
+			b.SlotsToCoeffsFactorizationDepthAndLogScales = [][]int{{39}, {39}, {39}}
+			b.Mod1Type, b.Mod1Degree, b.Mod1InvDegree = mod1.SinContinuous, P(63), P(7)
+			r.LogDefaultScale = 80
+		}, false},
+		{"all-options-conjugate-invariant", func(r *R, b *B) {
+			r.RingType = ring.ConjugateInvariant
+			b.EphemeralSecretWeight = P(0)
+			b.CoeffsToSlotsFactorizationDepthAndLogScales = [][]int{{56}, {56}, {56}}
+			b.Mod1Type, b.K, b.DoubleAngle = mod1.CosContinuous, P(20), P(1)
+			b.LogP = []int{61, 61}
+		}, false},
 		// LogN
 		{"LogN=residual", func(r *R, b *B) { b.LogN = P(7); b.LogSlots = P(3) }, false},
 		{"LogN<residual", func(r *R, b *B) { b.LogN = P(6) }, true},
